@@ -178,7 +178,16 @@ func (f *Frame) staticCall(bi *BInfo, fn *ssa.Function, cl *closureVal, args []T
 	}
 	sig := fn.Signature
 	if inRepo(fn) {
+		// helpers without contract: loop-free ones are inlined (robust against extract-method
+		// refactorings); others cannot be reasoned about
+		if fn.Blocks != nil && loopFree(fn) && f.depth < g.maxInline && !f.inChain(fn) {
+			g.note("call to %s (no contract, loop-free): inlined", fnDisplay(fn))
+			return f.inlineCall(bi, fn, cl, args, argVals)
+		}
 		g.note("call to %s (no contract): the whole modelled heap is havocked", fnDisplay(fn))
+		if !f.specMode {
+			g.degrade("%s calls %s, which has loops or recursion and no contract", fnDisplay(f.fn), fnDisplay(fn))
+		}
 		f.havocAll(bi)
 		return f.freshResults(sig)
 	}
@@ -492,4 +501,16 @@ func (f *Frame) atomicCall(bi *BInfo, fn *ssa.Function, args []T, argVals []ssa.
 		return nil, true
 	}
 	return nil, false
+}
+
+// loopFree reports whether fn has no back edge (and so can be inlined without an invariant).
+func loopFree(fn *ssa.Function) bool {
+	for _, b := range fn.Blocks {
+		for _, s := range b.Succs {
+			if s.Dominates(b) {
+				return false
+			}
+		}
+	}
+	return true
 }
